@@ -60,6 +60,22 @@ fn uniquify(v: &[i64]) -> Option<Vec<i64>> {
     Some(out)
 }
 
+/// Neutraliser of finding C03-F1 for a whole table: every NULL-free integer column that has duplicates although its
+/// range is at least as wide as the table is long (exactly the columns the estimate `min(non_null, max-min+1)` can
+/// mistake for unique) is made unique inside its range; statistics (min, max, NULL count, row count) stay the same.
+fn neutralise_unique(t: &Tbl) -> Option<Tbl> {
+    let mut out = t.clone();
+    let mut changed = false;
+    for ci in 0..t.cols.len() {
+        if !matches!(t.cols[ci].1, CT::I64 | CT::I32) { continue; }
+        let col: Vec<i64> = t.rows.iter().map(|r| if let V::I(i) = &r[ci] { *i } else { NULL }).collect();
+        let mut s = col.clone(); s.sort(); s.dedup();
+        if s.len() == col.len() { continue; }
+        if let Some(u) = uniquify(&col) { for (ri, v) in u.iter().enumerate() { out.rows[ri][ci] = V::I(*v); } changed = true; }
+    }
+    if changed { Some(out) } else { None }
+}
+
 fn pq_opts(r: &mut Rng, t: &mut Tbl, layout: &str, tags: &mut Vec<String>) {
     if layout != "pq" { return; }
     t.rg = *r.pick(&[0usize, 0, 2, 3, 5]);
@@ -238,6 +254,11 @@ pub fn gen_adversarial(r: &mut Rng, layout: &str) -> Value {
             let arg = *r.pick(&["rx * sy", "rx", "sy", "rx * sy + sy", "sy - rx"]);
             sql = format!("SELECT sg, SUM({}) AS t FROM r JOIN s ON {} GROUP BY sg", arg, on);
         }
+    }
+    if neutral_sql.is_none() {
+        // the unique-key neutraliser, over every column that can look unique to the estimate
+        let nts: Vec<Option<Tbl>> = tables.iter().map(neutralise_unique).collect();
+        neutral_tables = if nts.iter().any(|x| x.is_some()) { Some(nts.into_iter().zip(tables.iter()).map(|(n, t)| n.unwrap_or_else(|| t.clone())).collect()) } else { None };
     }
     let neutral = if neutral_tables.is_some() || neutral_sql.is_some() {
         json!({"sql": neutral_sql, "tables": neutral_tables.map(|t| tables_json(&t)), "what": if neutral_sql.is_some() { "rename" } else { "unique" }})
